@@ -382,12 +382,20 @@ func execVec(secret []byte, magic string, ini bool, idx int, contents []byte, mu
 // ---------------------------------------------------------------- one endpoint on a scripted input
 
 type scriptRW struct {
-	r *bytes.Reader
-	w bytes.Buffer
+	r   *bytes.Reader
+	w   bytes.Buffer
+	adm *admission // when set: note network I/O performed while a lease is outstanding
 }
 
-func (s *scriptRW) Read(p []byte) (int, error)  { return s.r.Read(p) }
-func (s *scriptRW) Write(p []byte) (int, error) { return s.w.Write(p) }
+func (s *scriptRW) Read(p []byte) (int, error) {
+	s.adm.noteIO()
+	return s.r.Read(p)
+}
+
+func (s *scriptRW) Write(p []byte) (int, error) {
+	s.adm.noteIO()
+	return s.w.Write(p)
+}
 
 func keysDigest(p *v2transport.Peer) string {
 	s := p.VerifSession()
@@ -443,6 +451,14 @@ var errAdmission = errors.New("admission rejected")
 type admission struct {
 	mode     int
 	acq, rel int
+	out      int // leases currently outstanding
+	heldIO   int // 1 if the connection was read or written while a lease was outstanding
+}
+
+func (a *admission) noteIO() {
+	if a != nil && a.out > 0 {
+		a.heldIO = 1
+	}
 }
 
 func (a *admission) Acquire() (func(), error) {
@@ -454,7 +470,8 @@ func (a *admission) Acquire() (func(), error) {
 		a.rel++ // a nil release func counts as released
 		return nil, nil
 	}
-	return func() { a.rel++ }, nil
+	a.out++
+	return func() { a.rel++; a.out-- }, nil
 }
 
 func errClass(err error) string {
@@ -502,7 +519,7 @@ func runEp(roleTok, magic string, pre, seed []byte, gLen int, decoys []string, i
 		v2transport.UseLogger(l)
 		defer v2transport.DisableLog()
 	}
-	rw := &scriptRW{r: bytes.NewReader(inp)}
+	rw := &scriptRW{r: bytes.NewReader(inp), adm: adm}
 	p.UseReadWriter(rw)
 	net2 := netOf(magic)
 	if fl.net2 != "" {
@@ -516,11 +533,7 @@ func runEp(roleTok, magic string, pre, seed []byte, gLen int, decoys []string, i
 	if fl.adm == 3 {
 		adm.rel = adm.acq // nil release funcs: nothing to count
 	}
-	common := fmt.Sprintf("pfx=%s dg=%d adm=%d,%d", hx(p.ReceivedPrefix()), dg, adm.acq, adm.rel)
-	if fl.adm >= 3 && role == "r" {
-		// the model counts admitted leases the same way for every admitting mode
-		common = fmt.Sprintf("pfx=%s dg=%d adm=%d,%d", hx(p.ReceivedPrefix()), dg, adm.acq, adm.rel)
-	}
+	common := fmt.Sprintf("pfx=%s dg=%d adm=%d,%d,%d", hx(p.ReceivedPrefix()), dg, adm.acq, adm.rel, adm.heldIO)
 	if err != nil {
 		return "hs=err:" + errClass(err) + " " + common + " w=" + digest(rw.w.Bytes()), rw.w.Bytes()
 	}
